@@ -1,1 +1,443 @@
-fn main(){}
+//! C20 — float helper backends. Built once per feature configuration of retrofire-core
+//! (cfg_none / cfg_libm / cfg_mm / cfg_std); this binary itself is a std program and uses
+//! std/f64 arithmetic as the reference.
+#![allow(dead_code, unused_imports, unused_macros)]
+
+#[path = "../../vh/src/json.rs"]
+#[macro_use]
+mod json;
+#[path = "../../vh/src/report.rs"]
+mod report;
+#[path = "../../shared/cover.rs"]
+mod cover;
+
+use json::{fbits, parse_fbits, J};
+use report::{par_range, replay_main, Cfg, Report};
+use std::panic::{catch_unwind, AssertUnwindSafe};
+use std::sync::Mutex;
+
+use re::geom::vertex;
+use re::math::float;
+use re::math::point::pt3;
+use re::render::raster::tri_fill;
+use re::render::tex::{uv, SamplerRepeatPot, Texture};
+use re::util::buf::Buf2;
+
+fn caught<T>(f: impl FnOnce() -> T) -> Result<T, String> {
+    catch_unwind(AssertUnwindSafe(f)).map_err(|e| {
+        if let Some(s) = e.downcast_ref::<&str>() { s.to_string() } else if let Some(s) = e.downcast_ref::<String>() { s.clone() } else { "<panic>".into() }
+    })
+}
+
+const CFG_NAME: &str = if cfg!(feature = "cfg_std") { "std" } else if cfg!(feature = "cfg_libm") { "libm" } else if cfg!(feature = "cfg_mm") { "mm" } else { "none" };
+
+fn ord(x: f32) -> i64 { let b = x.to_bits() as i32; (if b < 0 { i32::MIN.wrapping_sub(b) } else { b }) as i64 }
+fn ulps(a: f32, b: f32) -> i64 { if a.is_nan() && b.is_nan() { 0 } else if a.is_nan() || b.is_nan() { i64::MAX } else if a == b { 0 } else { (ord(a) - ord(b)).abs() } }
+
+/// how a result is judged against the reference
+#[derive(Clone, Copy)]
+enum Bound {
+    /// numerically equal (sign of zero ignored)
+    Exact,
+    Ulps(i64),
+    Abs(f64),
+    Rel(f64),
+    /// |got-ref| <= a * (1 + ref^2)   (tan-like error propagation)
+    TanLike(f64),
+}
+
+struct Fn1 { name: &'static str, f: fn(f32) -> f32, r: fn(f32) -> f64, dom: fn(f32) -> bool, b: Bound, dom_txt: &'static str }
+
+fn judge(got: f32, want: f64, b: Bound) -> (bool, f64) {
+    let w32 = want as f32;
+    if got.is_nan() || want.is_nan() { return (got.is_nan() && want.is_nan(), if got.is_nan() == want.is_nan() { 0.0 } else { f64::INFINITY }); }
+    match b {
+        Bound::Exact => (got as f64 == want, ((got as f64) - want).abs()),
+        Bound::Ulps(n) => { let u = ulps(got, w32); (u <= n, u as f64) }
+        Bound::Abs(a) => { let e = (got as f64 - want).abs(); (e <= a || got as f64 == want, e) }
+        Bound::Rel(a) => { let e = if want == 0.0 { (got as f64).abs() } else { ((got as f64 - want) / want).abs() }; (e <= a || got as f64 == want, e) }
+        // near a pole (|tan| > 1000) the approximations may return anything large, incl. inf: not judged
+        Bound::TanLike(a) => { if want.abs() > 1000.0 { return (got.abs() > 100.0 || got.is_infinite(), 0.0); } let e = (got as f64 - want).abs() / (1.0 + want * want); (e <= a, e) }
+    }
+}
+
+fn pattern(i: u64, quick: bool) -> u32 {
+    if quick { (((i >> 2) as u32) << 12) | [0u32, 1, 0x800, 0xFFF][(i & 3) as usize] } else { i as u32 }
+}
+
+fn sweep1(cfg: &Cfg, backend: &str, fns: &[Fn1], rep: &mut Report) {
+    let n: u64 = if cfg.quick() { 1 << 22 } else { 1 << 32 };
+    for f in fns {
+        let maxerr = Mutex::new(0.0f64);
+        let r = par_range(cfg, n, |i, r| {
+            let x = f32::from_bits(pattern(i, cfg.quick()));
+            if !(f.dom)(x) { return; }
+            r.eval();
+            check1(backend, f, x, r, Some(&maxerr));
+        });
+        rep.merge(r);
+        rep.set(&format!("max_err:{backend}:{}", f.name), *maxerr.lock().unwrap());
+        rep.set(&format!("domain:{backend}:{}", f.name), f.dom_txt);
+    }
+}
+
+fn check1(backend: &str, f: &Fn1, x: f32, r: &mut Report, maxerr: Option<&Mutex<f64>>) {
+    let want = (f.r)(x);
+    match caught(|| (f.f)(x)) {
+        Err(p) => r.violation(format!("{backend}-{}-panic|{:#010x}", f.name, x.to_bits()), format!("{backend}::{}({x:e}) panicked: {p}", f.name), obj! {"kind" => "fn1", "backend" => backend, "name" => f.name, "x" => fbits(x)}),
+        Ok(got) => {
+            let (ok, e) = judge(got, want, f.b);
+            if let Some(m) = maxerr { if e.is_finite() { let mut g = m.lock().unwrap(); if e > *g { *g = e; } } }
+            if !ok {
+                let cls = if x != 0.0 && x.abs() < 1e-18 { "tiny" } else if x < 0.0 { "neg" } else { "pos" };
+                r.violation(format!("{backend}-{}|{cls}|{:#010x}", f.name, x.to_bits()), format!("{backend}::{}({x:e}) = {got:e}, reference {want:e} (err {e:.3e})", f.name), obj! {"kind" => "fn1", "backend" => backend, "name" => f.name, "x" => fbits(x)});
+            } else if got != x { r.nontrivial(); }
+        }
+    }
+}
+
+fn finite(x: f32) -> bool { x.is_finite() }
+fn lt63(x: f32) -> bool { x.is_finite() && x.abs() < 9.2e18 }
+fn lt31(x: f32) -> bool { x.is_finite() && x.abs() < 2147483648.0 }
+fn pos_normal(x: f32) -> bool { x.is_normal() && x > 0.0 && x < 1e37 }
+fn nonneg(x: f32) -> bool { x.is_finite() && x >= 0.0 && (x == 0.0 || x.is_normal()) }
+fn unit(x: f32) -> bool { x >= -1.0 && x <= 1.0 }
+fn angle1e3(x: f32) -> bool { x.is_finite() && x.abs() <= 1000.0 }
+fn exp_dom(x: f32) -> bool { x.is_finite() && x.abs() <= 80.0 }
+
+fn rfloor(x: f32) -> f64 { (x as f64).floor() }
+fn rabs(x: f32) -> f64 { (x as f64).abs() }
+fn rrsqrt(x: f32) -> f64 { 1.0 / (x as f64).sqrt() }
+fn rsqrt(x: f32) -> f64 { (x as f64).sqrt() }
+fn rsin(x: f32) -> f64 { (x as f64).sin() }
+fn rcos(x: f32) -> f64 { (x as f64).cos() }
+fn rtan(x: f32) -> f64 { (x as f64).tan() }
+fn rasin(x: f32) -> f64 { (x as f64).asin() }
+fn racos(x: f32) -> f64 { (x as f64).acos() }
+fn rexp(x: f32) -> f64 { (x as f64).exp() }
+
+fn fallback_fns() -> Vec<Fn1> {
+    use float::fallback as fb;
+    vec![
+        Fn1 { name: "floor", f: fb::floor, r: rfloor, dom: lt63, b: Bound::Exact, dom_txt: "finite |x| < 2^63 (i64 cast range)" },
+        Fn1 { name: "abs", f: fb::abs, r: rabs, dom: finite, b: Bound::Exact, dom_txt: "all finite" },
+        // fast inverse square root + 1 Newton step: measured 1.76e-3 rel
+        Fn1 { name: "recip_sqrt", f: fb::recip_sqrt, r: rrsqrt, dom: pos_normal, b: Bound::Rel(2.7e-3), dom_txt: "positive normal x < 1e37" },
+    ]
+}
+
+#[cfg(feature = "cfg_libm")]
+fn libm_fns() -> Vec<Fn1> {
+    use float::libm as lm;
+    vec![
+        Fn1 { name: "floor", f: lm::floor, r: rfloor, dom: finite, b: Bound::Exact, dom_txt: "all finite" },
+        Fn1 { name: "abs", f: lm::abs, r: rabs, dom: finite, b: Bound::Exact, dom_txt: "all finite" },
+        Fn1 { name: "sqrt", f: lm::sqrt, r: rsqrt, dom: nonneg, b: Bound::Ulps(1), dom_txt: "x >= 0 normal" },
+        Fn1 { name: "recip_sqrt", f: lm::recip_sqrt, r: rrsqrt, dom: pos_normal, b: Bound::Ulps(4), dom_txt: "positive normal" },
+        Fn1 { name: "sin", f: lm::sin, r: rsin, dom: finite, b: Bound::Ulps(4), dom_txt: "all finite" },
+        Fn1 { name: "cos", f: lm::cos, r: rcos, dom: finite, b: Bound::Ulps(4), dom_txt: "all finite" },
+        Fn1 { name: "tan", f: lm::tan, r: rtan, dom: finite, b: Bound::Ulps(4), dom_txt: "all finite" },
+        Fn1 { name: "asin", f: lm::asin, r: rasin, dom: unit, b: Bound::Ulps(4), dom_txt: "[-1,1]" },
+        Fn1 { name: "acos", f: lm::acos, r: racos, dom: unit, b: Bound::Ulps(4), dom_txt: "[-1,1]" },
+        Fn1 { name: "exp", f: lm::exp, r: rexp, dom: exp_dom, b: Bound::Ulps(4), dom_txt: "|x| <= 80" },
+    ]
+}
+
+#[cfg(feature = "cfg_mm")]
+fn mm_fns() -> Vec<Fn1> {
+    use float::mm;
+    vec![
+        Fn1 { name: "floor", f: mm::floor, r: rfloor, dom: lt31, b: Bound::Exact, dom_txt: "finite |x| < 2^31 (i32 cast range)" },
+        Fn1 { name: "abs", f: mm::abs, r: rabs, dom: finite, b: Bound::Exact, dom_txt: "all finite" },
+        // bit-trick sqrt + 1 Newton step: measured below
+        Fn1 { name: "sqrt", f: mm::sqrt, r: rsqrt, dom: pos_normal, b: Bound::Rel(2.5e-3), dom_txt: "positive normal" },
+        Fn1 { name: "recip_sqrt", f: mm::recip_sqrt, r: rrsqrt, dom: pos_normal, b: Bound::Rel(2.7e-3), dom_txt: "positive normal" },
+        Fn1 { name: "sin", f: mm::sin, r: rsin, dom: angle1e3, b: Bound::Abs(2.0e-3), dom_txt: "|x| <= 1000" },
+        Fn1 { name: "cos", f: mm::cos, r: rcos, dom: angle1e3, b: Bound::Abs(2.0e-3), dom_txt: "|x| <= 1000" },
+        Fn1 { name: "tan", f: mm::tan, r: rtan, dom: angle1e3, b: Bound::TanLike(6.0e-3), dom_txt: "|x| <= 1000, error relative to 1+tan^2" },
+        Fn1 { name: "asin", f: mm::asin, r: rasin, dom: unit, b: Bound::Abs(3.0e-2), dom_txt: "[-1,1]" },
+        Fn1 { name: "acos", f: mm::acos, r: racos, dom: unit, b: Bound::Abs(4.5e-2), dom_txt: "[-1,1]" },
+    ]
+}
+
+// ------------------------------------------------------------ two-argument functions
+fn lattice2() -> Vec<f32> {
+    let mut v = vec![0.0f32];
+    for e in -20..=20 { for m in [1.0f32, 1.25, 1.5, 1.9999999] { let x = m * (2.0f32).powi(e); v.push(x); v.push(-x); } }
+    for k in 1..=64 { v.push(k as f32); v.push(-(k as f32)); v.push(k as f32 + 0.5); v.push(-(k as f32) - 0.5); v.push(k as f32 * 0.1); v.push(-(k as f32) * 0.1); }
+    v.push(-0.0);
+    v
+}
+
+fn check_rem(backend: &str, f: fn(f32, f32) -> f32, x: f32, m: f32, r: &mut Report) {
+    r.eval();
+    let case = obj! {"kind" => "rem", "backend" => backend, "x" => fbits(x), "m" => fbits(m)};
+    match caught(|| f(x, m)) {
+        Err(p) => r.violation(format!("{backend}-rem_euclid-panic|{x}|{m}"), format!("{backend}::rem_euclid({x},{m}) panicked: {p}"), case),
+        Ok(g) => {
+            let q = (x as f64 - g as f64) / m as f64;
+            let in_range = g >= 0.0 && g <= m;
+            let congruent = (q - q.round()).abs() <= 1e-4;
+            if !in_range || !congruent {
+                let cls = if !in_range { "range" } else { "congruence" };
+                r.violation(format!("{backend}-rem_euclid|{cls}|x={x}|m={m}"), format!("{backend}::rem_euclid({x},{m}) = {g}; in [0,m]: {in_range}; (x-r)/m = {q}"), case);
+            } else if x < 0.0 { r.nontrivial(); }
+        }
+    }
+}
+
+fn check_atan2(backend: &str, f: fn(f32, f32) -> f32, y: f32, x: f32, b: Bound, r: &mut Report, maxerr: &Mutex<f64>) {
+    if x == 0.0 && y == 0.0 { return; }
+    r.eval();
+    let want = (y as f64).atan2(x as f64);
+    let case = obj! {"kind" => "atan2", "backend" => backend, "y" => fbits(y), "x" => fbits(x)};
+    match caught(|| f(y, x)) {
+        Err(p) => r.violation(format!("{backend}-atan2-panic|{y}|{x}"), format!("{backend}::atan2({y},{x}) panicked: {p}"), case),
+        Ok(g) => {
+            // compare on the circle (results near +-pi may wrap)
+            let mut d = (g as f64 - want).abs(); if d > std::f64::consts::PI { d = (d - std::f64::consts::TAU).abs(); }
+            let ok = match b { Bound::Ulps(n) => ulps(g, want as f32) <= n || d < 1e-7, Bound::Abs(a) => d <= a, _ => false };
+            { let mut m = maxerr.lock().unwrap(); if d.is_finite() && d > *m { *m = d; } }
+            if !ok { r.violation(format!("{backend}-atan2|y={y}|x={x}"), format!("{backend}::atan2({y},{x}) = {g}, reference {want} (diff {d:.3e})"), case); } else { r.nontrivial(); }
+        }
+    }
+}
+
+fn check_powf(backend: &str, f: fn(f32, f32) -> f32, x: f32, y: f32, b: Bound, r: &mut Report, maxerr: &Mutex<f64>) {
+    r.eval();
+    let want = (x as f64).powf(y as f64);
+    let case = obj! {"kind" => "powf", "backend" => backend, "x" => fbits(x), "y" => fbits(y)};
+    match caught(|| f(x, y)) {
+        Err(p) => r.violation(format!("{backend}-powf-panic|{x}|{y}"), format!("{backend}::powf({x},{y}) panicked: {p}"), case),
+        Ok(g) => {
+            let (ok, e) = judge(g, want, b);
+            { let mut m = maxerr.lock().unwrap(); if e.is_finite() && e > *m { *m = e; } }
+            if !ok { r.violation(format!("{backend}-powf|x={x}|y={y}"), format!("{backend}::powf({x},{y}) = {g}, reference {want} (err {e:.3e})"), case); } else { r.nontrivial(); }
+        }
+    }
+}
+
+fn two_arg(cfg: &Cfg, rep: &mut Report) {
+    let lat = lattice2();
+    let ms = [0.5f32, 1.0, 2.2, 1.0 / 2.2, 3.0, 6.0, std::f32::consts::TAU, 360.0, 1e-3, 255.0];
+    let n = lat.len() as u64;
+    let mut rems: Vec<(&str, fn(f32, f32) -> f32)> = vec![("fallback", float::fallback::rem_euclid)];
+    #[cfg(feature = "cfg_mm")]
+    rems.push(("mm", float::mm::rem_euclid));
+    #[cfg(feature = "cfg_libm")]
+    rems.push(("libm", float::libm::rem_euclid));
+    for (bk, f) in rems {
+        rep.merge(par_range(cfg, n * ms.len() as u64, |i, r| {
+            let (x, m) = (lat[(i % n) as usize], ms[(i / n) as usize]);
+            if (x / m).abs() > 4096.0 { return; }
+            check_rem(bk, f, x, m, r);
+        }));
+        // dense: x = k*m/8 for |k| <= 4096 (all negative multiples of m included)
+        rep.merge(par_range(cfg, 8193 * ms.len() as u64, |i, r| {
+            let m = ms[(i / 8193) as usize];
+            let x = (i % 8193) as f32 - 4096.0;
+            check_rem(bk, f, x * m / 8.0, m, r);
+        }));
+    }
+    #[cfg(any(feature = "cfg_libm", feature = "cfg_mm"))]
+    {
+        let mut a2: Vec<(&str, fn(f32, f32) -> f32, Bound)> = vec![];
+        #[cfg(feature = "cfg_libm")]
+        a2.push(("libm", float::libm::atan2, Bound::Ulps(4)));
+        #[cfg(feature = "cfg_mm")]
+        a2.push(("mm", float::mm::atan2, Bound::Abs(5.0e-3)));
+        for (bk, f, b) in a2 {
+            let me = Mutex::new(0.0);
+            rep.merge(par_range(cfg, n * n, |i, r| check_atan2(bk, f, lat[(i % n) as usize], lat[(i / n) as usize], b, r, &me)));
+            rep.set(&format!("max_err:{bk}:atan2"), *me.lock().unwrap());
+        }
+        let ys = [0.5f32, 1.0, 2.2, 1.0 / 2.2, 3.0, 2.0, 0.0, 1.5];
+        let mut pw: Vec<(&str, fn(f32, f32) -> f32, Bound)> = vec![];
+        #[cfg(feature = "cfg_libm")]
+        pw.push(("libm", float::libm::powf, Bound::Ulps(4)));
+        // micromath's powf is a crude approximation (measured ~0.14 abs on [0,1]); bound recorded, see DESIGN
+        #[cfg(feature = "cfg_mm")]
+        pw.push(("mm", float::mm::powf, Bound::Abs(0.25)));
+        for (bk, f, b) in pw {
+            let me = Mutex::new(0.0);
+            let steps = 4097u64;
+            rep.merge(par_range(cfg, steps * ys.len() as u64, |i, r| {
+                let x = (i % steps) as f32 / (steps - 1) as f32;
+                let y = ys[(i / steps) as usize];
+                if bk == "mm" && x == 0.0 { return; }
+                check_powf(bk, f, x, y, b, r, &me);
+            }));
+            rep.set(&format!("max_err:{bk}:powf(x in [0,1])"), *me.lock().unwrap());
+        }
+    }
+}
+
+// ------------------------------------------------------------ consumers (use the configuration's alias)
+fn tri_cover(t: [(i32, i32); 3], r: &mut Report) {
+    // half-pixel lattice: coordinates k/2
+    r.eval();
+    let vs = t.map(|(x, y)| vertex(pt3(x as f32 / 2.0, y as f32 / 2.0, 1.0), ()));
+    let mut covered = std::collections::BTreeSet::new();
+    let res = caught(|| tri_fill(vs, |sl| { for x in sl.xs.clone() { covered.insert((x as i64, sl.y as i64)); } }));
+    let case = obj! {"kind" => "tri", "t" => t.iter().flat_map(|p| [p.0, p.1]).collect::<Vec<i32>>()};
+    if let Err(p) = res { r.violation(format!("consumer-tri_fill-panic|{t:?}"), format!("tri_fill{t:?}/2 panicked: {p}"), case); return; }
+    let ti = t.map(|(x, y)| (x as i64, y as i64));
+    let mut any_inside = false;
+    for j in -1..7i64 { for i in -1..7i64 {
+        let c = cover::classify(ti, 2, i, j, 0.001);
+        let got = covered.contains(&(i, j));
+        match c {
+            cover::Cover::Inside => { any_inside = true; if !got { r.violation(format!("consumer-tri_fill|missing|{t:?}"), format!("[{CFG_NAME}] triangle {t:?}/2: pixel ({i},{j}) centre strictly inside but not covered"), case.clone()); return; } }
+            cover::Cover::Outside => { if got { r.violation(format!("consumer-tri_fill|extra|{t:?}"), format!("[{CFG_NAME}] triangle {t:?}/2: pixel ({i},{j}) centre strictly outside but covered"), case.clone()); return; } }
+            cover::Cover::Band => {}
+        }
+    }}
+    if any_inside { r.nontrivial(); }
+}
+
+fn tex_repeat(r: &mut Report) {
+    for (w, h) in [(1u32, 1u32), (2, 2), (4, 2), (8, 8), (16, 4)] {
+        let tex = Texture::from(Buf2::new_with((w, h), |x, y| (x, y)));
+        let s = SamplerRepeatPot::new(&tex);
+        let mut cs: Vec<f32> = vec![];
+        for k in -(2 * 16 + 1)..=(2 * 16 + 1) { let k = k as f32; cs.extend([k, k + 0.5, f32::from_bits(k.to_bits().wrapping_add(1)), f32::from_bits(k.to_bits().wrapping_sub(1))]); }
+        for e in 0..31 { let p = (2.0f32).powi(e); cs.extend([p, -p, p + 1.0, -p - 1.0]); }
+        cs.extend([2147483520.0, -2147483648.0, 1e-30, -1e-30, -0.0]);
+        for &u in &cs { for &v in &[0.5f32, -0.5, -1.0, -3.0, 2.0] {
+            for swap in [false, true] {
+                let (cu, cv) = if swap { (v, u) } else { (u, v) };
+                if !cu.is_finite() || !cv.is_finite() { continue; }
+                r.eval();
+                let exp = (((cu as f64).floor() as i64).rem_euclid(w as i64) as u32, ((cv as f64).floor() as i64).rem_euclid(h as i64) as u32);
+                let case = obj! {"kind" => "tex", "w" => w, "h" => h, "u" => fbits(cu), "v" => fbits(cv)};
+                match caught(|| s.sample_abs(&tex, uv(cu, cv))) {
+                    Ok(g) if g == exp => { if cu < 0.0 || cv < 0.0 { r.nontrivial(); } }
+                    Ok(g) => r.violation(format!("consumer-tex-repeat|{w}x{h}|u={cu}|v={cv}"), format!("[{CFG_NAME}] SamplerRepeatPot {w}x{h} at ({cu},{cv}) -> texel {g:?}, expected {exp:?}"), case),
+                    Err(p) => r.violation(format!("consumer-tex-repeat-panic|{w}x{h}|u={cu}|v={cv}"), format!("[{CFG_NAME}] SamplerRepeatPot {w}x{h} at ({cu},{cv}) panicked: {p}"), case),
+                }
+            }
+        }}
+    }
+}
+
+#[cfg(not(feature = "cfg_none"))]
+fn fp_consumers(r: &mut Report) {
+    use re::math::angle::{degs, rads, turns};
+    use re::math::vec::vec3;
+    use re::render::tex::SamplerClamp;
+    // Angle::wrap
+    let rel = if cfg!(feature = "cfg_mm") { 1e-4 } else { 1e-4 };
+    for k in -480..=480 { for (mn, mx) in [(0.0f32, 1.0f32), (-0.5, 0.5), (-0.25, 0.75), (1.0, 3.0), (-10.0, -9.0)] {
+        r.eval();
+        let a = turns(k as f32 / 48.0);
+        let case = obj! {"kind" => "wrap", "k" => k, "mn" => fbits(mn), "mx" => fbits(mx)};
+        match caught(|| a.wrap(turns(mn), turns(mx)).to_turns()) {
+            Err(p) => r.violation(format!("consumer-wrap-panic|k={k}|{mn}..{mx}"), format!("[{CFG_NAME}] wrap panicked: {p}"), case),
+            Ok(w) => {
+                let q = (k as f64 / 48.0 - w as f64) / (mx - mn) as f64;
+                if !(w >= mn - 1e-5 && w <= mx + 1e-5) || (q - q.round()).abs() > rel * 10.0 {
+                    r.violation(format!("consumer-wrap|k={k}|{mn}..{mx}"), format!("[{CFG_NAME}] turns({}).wrap({mn},{mx}) = {w} turns (q={q})", k as f32 / 48.0), case);
+                } else if k < 0 { r.nontrivial(); }
+            }
+        }
+    }}
+    let _ = (degs(1.0), rads(1.0));
+    // normalisation
+    let tol = if cfg!(feature = "cfg_mm") { 3.0e-3 } else { 1.0e-5 };
+    for i in 0..10_000u32 {
+        r.eval();
+        let f = |k: u32| ((i.wrapping_mul(2654435761).rotate_left(k) % 2001) as f32 - 1000.0) * 0.013 * (1u32 << (i % 12)) as f32;
+        let v = vec3::<_, ()>(f(3), f(11), f(19));
+        if v.len_sqr() == 0.0 { continue; }
+        match caught(|| v.normalize()) {
+            Err(p) => r.violation(format!("consumer-normalize-panic|{i}"), format!("[{CFG_NAME}] normalize({v:?}) panicked: {p}"), obj! {"kind" => "norm", "i" => i}),
+            Ok(n) => {
+                let l = (n.x() as f64).hypot(n.y() as f64).hypot(n.z() as f64);
+                if (l - 1.0).abs() > tol { r.violation(format!("consumer-normalize|{i}"), format!("[{CFG_NAME}] normalize({v:?}) has length {l}"), obj! {"kind" => "norm", "i" => i}); } else { r.nontrivial(); }
+            }
+        }
+    }
+    // clamp sampler
+    for (w, h) in [(1u32, 1u32), (2, 3), (5, 4), (8, 8)] {
+        let tex = Texture::from(Buf2::new_with((w, h), |x, y| (x, y)));
+        for ui in -20..=40 { for vi in -20..=40 {
+            r.eval();
+            let (u, v) = (ui as f32 * 0.25, vi as f32 * 0.25);
+            let exp = ((u.clamp(0.0, w as f32 - 1.0)).floor() as u32, (v.clamp(0.0, h as f32 - 1.0)).floor() as u32);
+            match caught(|| SamplerClamp.sample_abs(&tex, uv(u, v))) {
+                Ok(g) if g == exp => {}
+                other => r.violation(format!("consumer-tex-clamp|{w}x{h}|{u}|{v}"), format!("[{CFG_NAME}] SamplerClamp {w}x{h} at ({u},{v}) -> {other:?}, expected {exp:?}"), obj! {"kind" => "clamp", "w" => w, "h" => h, "u" => fbits(u), "v" => fbits(v)}),
+            }
+        }}
+    }
+}
+
+fn lookup_fn1(backend: &str, name: &str) -> Option<Fn1> {
+    let mut all: Vec<(&str, Vec<Fn1>)> = vec![("fallback", fallback_fns())];
+    #[cfg(feature = "cfg_libm")]
+    all.push(("libm", libm_fns()));
+    #[cfg(feature = "cfg_mm")]
+    all.push(("mm", mm_fns()));
+    for (b, fs) in all { if b == backend { for f in fs { if f.name == name { return Some(f); } } } }
+    None
+}
+
+fn replay_case(case: &J, r: &mut Report) {
+    let s = |k: &str| case.get(k).and_then(|j| j.as_str()).unwrap_or("").to_string();
+    let fb = |k: &str| parse_fbits(case.get(k).unwrap()).unwrap();
+    let me = Mutex::new(0.0);
+    match s("kind").as_str() {
+        "fn1" => match lookup_fn1(&s("backend"), &s("name")) { Some(f) => check1(&s("backend"), &f, fb("x"), r, None), None => { eprintln!("MACHINERY-ERROR backend {} not in this configuration", s("backend")); std::process::exit(2) } },
+        "rem" => { let f: fn(f32, f32) -> f32 = match s("backend").as_str() { "fallback" => float::fallback::rem_euclid, #[cfg(feature = "cfg_mm")] "mm" => float::mm::rem_euclid, #[cfg(feature = "cfg_libm")] "libm" => float::libm::rem_euclid, _ => std::process::exit(2) }; check_rem(&s("backend"), f, fb("x"), fb("m"), r) }
+        "tri" => { let v: Vec<i32> = case.get("t").unwrap().as_arr().unwrap().iter().map(|x| x.as_i64().unwrap() as i32).collect(); tri_cover([(v[0], v[1]), (v[2], v[3]), (v[4], v[5])], r) }
+        "tex" => { let mut rr = Report::new(); tex_repeat(&mut rr); let want = format!("u={}|v={}", fb("u"), fb("v")); for (k, v) in rr.viols { if k.contains(&want) { r.violation(k, v.what, v.case); } } }
+        #[cfg(not(feature = "cfg_none"))]
+        "wrap" | "norm" | "clamp" => { let mut rr = Report::new(); fp_consumers(&mut rr); for (k, v) in rr.viols { r.violation(k, v.what, v.case); } }
+        #[cfg(feature = "cfg_libm")]
+        "atan2" if s("backend") == "libm" => check_atan2("libm", float::libm::atan2, fb("y"), fb("x"), Bound::Ulps(4), r, &me),
+        #[cfg(feature = "cfg_mm")]
+        "atan2" if s("backend") == "mm" => check_atan2("mm", float::mm::atan2, fb("y"), fb("x"), Bound::Abs(5.0e-3), r, &me),
+        #[cfg(feature = "cfg_libm")]
+        "powf" if s("backend") == "libm" => check_powf("libm", float::libm::powf, fb("x"), fb("y"), Bound::Ulps(4), r, &me),
+        #[cfg(feature = "cfg_mm")]
+        "powf" if s("backend") == "mm" => check_powf("mm", float::mm::powf, fb("x"), fb("y"), Bound::Abs(0.25), r, &me),
+        k => { eprintln!("MACHINERY-ERROR replay kind {k} not available in configuration {CFG_NAME}"); std::process::exit(2) }
+    }
+}
+
+fn main() {
+    if std::env::var("VERIF_DEBUG_PANIC").is_err() { std::panic::set_hook(Box::new(|_| {})); }
+    let cfg = Cfg::from_args(|_| "C20".into());
+    if cfg.replay.is_some() { replay_main(&cfg, replay_case); }
+    let mut rep = Report::new();
+    rep.set("configuration", CFG_NAME);
+    // module sweeps: each backend module is swept in the configuration that selects it
+    #[cfg(feature = "cfg_none")]
+    sweep1(&cfg, "fallback", &fallback_fns(), &mut rep);
+    #[cfg(feature = "cfg_libm")]
+    sweep1(&cfg, "libm", &libm_fns(), &mut rep);
+    #[cfg(feature = "cfg_mm")]
+    sweep1(&cfg, "mm", &mm_fns(), &mut rep);
+    #[cfg(feature = "cfg_std")]
+    {
+        // the std configuration is the reference: its alias must be the primitive type
+        let x: float::f32 = 1.5f32;
+        rep.eval();
+        if float::f32::floor(x) != 1.0 { rep.violation("std-alias|".into(), "float::f32 is not the primitive type".into(), J::Null); }
+        sweep1(&cfg, "fallback", &fallback_fns()[..1], &mut rep); // fallback module is public in every configuration
+    }
+    two_arg(&cfg, &mut rep);
+    // consumers through the configuration's alias
+    let n = 9u64; // half-pixel lattice 0..=4 px
+    let pts: Vec<(i32, i32)> = (0..n * n).map(|i| ((i % n) as i32, (i / n) as i32)).collect();
+    let np = pts.len() as u64;
+    rep.merge(par_range(&cfg, np * np * np, |i, r| tri_cover([pts[(i % np) as usize], pts[(i / np % np) as usize], pts[(i / np / np) as usize]], r)));
+    let mut r = Report::new();
+    tex_repeat(&mut r);
+    #[cfg(not(feature = "cfg_none"))]
+    fp_consumers(&mut r);
+    rep.merge(r);
+    rep.sample(0, || obj! {"configuration" => CFG_NAME, "one_arg_pattern" => "0xc0000000 (-2.0)", "rem_euclid" => "(-6.6, 2.2)", "triangle_half_px" => vec![0, 0, 8, 0, 4, 2]});
+    let rule = format!("configuration {CFG_NAME}: one-argument functions of the selected backend module over {} f32 bit patterns restricted to each function's stated domain, against f64 std references with per-(backend,function) bounds; rem_euclid/atan2/powf on two-argument lattices; consumers (tri_fill coverage on the half-pixel lattice vs exact edge functions, SamplerRepeatPot/SamplerClamp addressing, Angle::wrap, normalize) through the configuration's float alias. non-trivial = result differs from the input / negative operand / interior pixels exist.", if cfg.quick() { "2^22 boundary-dense" } else { "all 2^32" });
+    rep.finish(&cfg, "exploration", &rule, &["reference = Rust std/f64 on this platform", "error bounds per backend/function are constants in fpcfg/src/main.rs (calibrated maxima are echoed as max_err:*)", "micromath powf bound 0.25 abs on [0,1] is a recorded library limitation"]);
+}
